@@ -24,6 +24,7 @@ package nsqd
 // it values received from Go channels, whose contents the engine does not model (ENGINE GAPS in
 // NOTES.md). Topic.put / Channel.put require m != nil themselves.
 //@ func writeMessageToBackend(msg *Message, bq BackendQueue) error
+//@   nochan
 //@   props C01 C05 C13
 //@   trusted
 //@   requires[queue] bq != nil
@@ -34,6 +35,7 @@ package nsqd
 //@   onreturn lastWriteErr := result
 
 //@ func (n *NSQD) SetHealth(err error)
+//@   nochan
 //@   props C01
 //@   trusted
 //@   requires n != nil
@@ -139,8 +141,11 @@ package nsqd
 //@   ensures[flag] result == (c.exitFlag == 1)
 //@   modifies
 
+// The three in-memory queues of a channel are created separately (or absent): pairwise different unless nil.
+//@ pred queuesDistinct(c *Channel) := (c.zoneLocalMsgChan == nil || (c.zoneLocalMsgChan != c.regionLocalMsgChan && c.zoneLocalMsgChan != c.memoryMsgChan)) &&
+//@      (c.regionLocalMsgChan == nil || c.regionLocalMsgChan != c.memoryMsgChan)
 //@ func (c *Channel) put(m *Message) error
-//@   props C01 C13 C05
+//@   props C01 C13 C05 C02
 //@   requires flowChan(c) && m != nil
 //@   ensures[at-most-one-write] backendWrites == old(backendWrites) || backendWrites == old(backendWrites) + 1
 //@   ensures[backend-gets-this-message] backendWrites == old(backendWrites) + 1 ==> lastWriteMsg == m && lastWriteQueue == c.backend
@@ -151,7 +156,13 @@ package nsqd
 //@   ensures[no-memory-queue-means-backend] c.memoryMsgChan == nil && c.zoneLocalMsgChan == nil && c.regionLocalMsgChan == nil ==> backendWrites == old(backendWrites) + 1
 //@   ensures[plain-mode-skips-topology-queues] !c.topologyAwareConsumption && c.memoryMsgChan == nil ==> backendWrites == old(backendWrites) + 1
 //@   ensures[counters-untouched] c.messageCount == old(c.messageCount) && c.requeueCount == old(c.requeueCount) && c.timeoutCount == old(c.timeoutCount)
-//@   modifies backendWrites, lastWriteMsg, lastWriteQueue, lastWriteErr, healthSets, lastHealthErr, lastHealthNSQD, chanPuts, chanPutOK, lastChanPutMsg
+// The message is enqueued exactly once: one send on one of the three in-memory queues, or one backend
+// write - never both, never twice (ghost send counters of the channel's own queues).
+//@   ensures[enqueued-exactly-once] result == nil && queuesDistinct(c) ==>
+//@        (sent(c.zoneLocalMsgChan) - old(sent(c.zoneLocalMsgChan))) + (sent(c.regionLocalMsgChan) - old(sent(c.regionLocalMsgChan))) +
+//@        (sent(c.memoryMsgChan) - old(sent(c.memoryMsgChan))) + (backendWrites - old(backendWrites)) == 1
+//@   ensures[memory-queue-gets-this-message] sent(c.memoryMsgChan) != old(sent(c.memoryMsgChan)) && c.memoryMsgChan != c.zoneLocalMsgChan && c.memoryMsgChan != c.regionLocalMsgChan ==> lastsent(c.memoryMsgChan) == m
+//@   modifies backendWrites, lastWriteMsg, lastWriteQueue, lastWriteErr, healthSets, lastHealthErr, lastHealthNSQD, chanPuts, chanPutOK, lastChanPutMsg, chanstore(*Message)
 //@   onreturn chanPuts := chanPuts + 1
 //@   onreturn chanPutOK := chanPutOK + (result == nil ? 1 : 0)
 //@   onreturn lastChanPutMsg := m
